@@ -18,6 +18,25 @@ import gzip
 logger = logging.getLogger('IsoQuant')
 
 
+# per-user JSON caches are shared between concurrently running IsoQuant processes
+def load_json_cache(config_path):
+    # a missing or half-written file is treated as an empty cache
+    try:
+        with open(config_path, 'r') as f_in:
+            cache = json.load(f_in)
+    except (OSError, ValueError):
+        return {}
+    return cache if isinstance(cache, dict) else {}
+
+
+def dump_json_cache(config_path, cache):
+    # write to a temporary sibling and publish atomically, so readers never see a partial file
+    tmp_path = "%s.%d.tmp" % (config_path, os.getpid())
+    with open(tmp_path, 'w') as f_out:
+        json.dump(cache, f_out)
+    os.replace(tmp_path, config_path)
+
+
 def db2gtf(db, gtf, _=None):
     logger.info("Converting gene annotation file to .gtf format (takes a while)...")
     with open(gtf, "w") as f:
@@ -341,8 +360,7 @@ def compare_stored_gtf(converted_gtfs, gtf_filename, genedb_filename):
 def convert_db(gtf_filename, genedb_filename, convert_fn, args):
     genedb_filename = os.path.abspath(genedb_filename)
 
-    with open(args.db_config_path, 'r') as f_in:
-        converted_gtfs = json.load(f_in)
+    converted_gtfs = load_json_cache(args.db_config_path)
 
     if not args.clean_start:
         if convert_fn == gtf2db:
@@ -366,8 +384,7 @@ def convert_db(gtf_filename, genedb_filename, convert_fn, args):
         'db_mtime': os.path.getmtime(genedb_filename),
         'complete_db': args.complete_genedb
     }
-    with open(args.db_config_path, 'w') as f_out:
-        json.dump(converted_gtfs, f_out)
+    dump_json_cache(args.db_config_path, converted_gtfs)
     return gtf_filename, genedb_filename
 
 
